@@ -71,8 +71,22 @@ def _queue_part():
     return {"name": "waiter-queue", "harness": "mpmc", "model": "Mpmc", "gen": gen_q, "post": src.get("post")}
 
 
+import os as _os
+import sys as _sys
+
+_sys.path.insert(0, _os.path.join(_os.path.dirname(_os.path.dirname(_os.path.abspath(__file__))), "extract"))
+import wake_extract  # noqa: E402
+
+
+def pre(repo):
+    """translator step (facts no trace shows): the manager's wake loops wait without bound for an
+    announced waiter and wake exactly the number asked for"""
+    wake_extract.check(repo)
+
+
 SPEC = {
     "C06": {
+        "pre": pre,
         "parts": [{"name": "sem", "harness": "sem", "model": "Sem", "runtime": True, "gen": gen,
                    "nontrivial": nontrivial}, _queue_part()],
         "rule": "cases = (initial value 0-3, script of 2-6 fibers doing wait/trywait/post/yield, 1-3 kernel threads, scheduler kind+seed) from VERIF_SEED; the main fiber posts whenever every unfinished fiber is inside wait and too few units were made available (and the monitor counts those posts); distinct = different (args, sha1 of access sequence); non-trivial = at least one waiter blocked and was enqueued by its successor, or a CAS failed",
